@@ -110,6 +110,11 @@ type Mutant struct {
 	// directory) applied to the scratch copy instead of the File/Old/New edit:
 	// the kept seeded changes serve as controls this way.
 	Patch string `json:"patch,omitempty"`
+	// Base, when set, is a behaviour-preserving refactoring (a unified diff
+	// under the verification directory) applied to the scratch copy before the
+	// File/Old/New edit: the breakage is made in the refactored shape of the
+	// code, to show that a rule which follows the refactoring still sees it.
+	Base string `json:"base,omitempty"`
 }
 
 type controlResult struct {
@@ -245,6 +250,9 @@ func runControl(m Mutant, repo, verif string) controlResult {
 	if m.Patch != "" {
 		return runPatchControl(m, repo, verif)
 	}
+	if m.Base != "" {
+		return runBasedControl(m, repo, verif)
+	}
 	src, err := os.ReadFile(filepath.Join(repo, m.File))
 	newFile := m.Old == ""
 	if newFile {
@@ -310,6 +318,70 @@ func runControl(m Mutant, repo, verif string) controlResult {
 	}
 	res.Status = "did-not-fire"
 	res.Detail = "variant compiled but the rule reported no new failing obligation whose key contains " + m.Expect
+	return res
+}
+
+// runBasedControl: refactor (Base), then break (File/Old/New), then demand the report.
+func runBasedControl(m Mutant, repo, verif string) controlResult {
+	res := controlResult{Name: m.Name, Rule: m.Rule}
+	base, _ := filepath.Abs(filepath.Join(verif, m.Base))
+	if _, err := os.Stat(base); err != nil {
+		res.Status, res.Detail = "did-not-fire", "base patch missing: "+m.Base
+		return res
+	}
+	baseFail, err := baselineFailures(repo, m.Rule)
+	if err != nil {
+		res.Status, res.Detail = "did-not-fire", fmt.Sprintf("baseline run failed: %v", err)
+		return res
+	}
+	dir, err := os.MkdirTemp("", "evcheck-control-")
+	if err != nil {
+		res.Status, res.Detail = "did-not-fire", err.Error()
+		return res
+	}
+	defer os.RemoveAll(dir)
+	if err := copyTree(repo, dir); err != nil {
+		res.Status, res.Detail = "did-not-fire", err.Error()
+		return res
+	}
+	ap := exec.Command("git", "apply", "--whitespace=nowarn", base)
+	ap.Dir = dir
+	ap.Env = append(os.Environ(), "GIT_CEILING_DIRECTORIES="+filepath.Dir(dir))
+	if out, err := ap.CombinedOutput(); err != nil {
+		res.Status = "control-skipped"
+		res.Detail = "the refactoring no longer applies (the code moved on): " + lastLines(string(out), 2)
+		return res
+	}
+	src, err := os.ReadFile(filepath.Join(dir, m.File))
+	if err != nil || strings.Count(string(src), m.Old) != 1 {
+		res.Status = "control-skipped"
+		res.Detail = "anchor text not present exactly once in the refactored " + m.File
+		return res
+	}
+	if err := os.WriteFile(filepath.Join(dir, m.File), []byte(strings.Replace(string(src), m.Old, m.New, 1)), 0o644); err != nil {
+		res.Status, res.Detail = "did-not-fire", err.Error()
+		return res
+	}
+	build := exec.Command("go", "build", "./...")
+	build.Dir = dir
+	build.Env = goEnv()
+	if out, err := build.CombinedOutput(); err != nil {
+		res.Status, res.Detail = "does-not-build", lastLines(string(out), 3)
+		return res
+	}
+	got, err := runSub(dir, []string{m.Rule}, "")
+	if err != nil || got.LoadError != "" {
+		res.Status, res.Detail = "did-not-fire", fmt.Sprintf("run on variant failed: %v %s", err, got.LoadError)
+		return res
+	}
+	for _, o := range got.Obligations {
+		if (o.Verdict == Fail || o.Verdict == Undecided) && !baseFail[o.Key] && strings.Contains(o.Key, m.Expect) {
+			res.Status, res.Detail = "fired", o.Key
+			return res
+		}
+	}
+	res.Status = "did-not-fire"
+	res.Detail = "refactored and broken variant compiled but the rule reported no new failing obligation whose key contains " + m.Expect
 	return res
 }
 
